@@ -286,10 +286,8 @@ def boundary_cases():
     return out
 
 
-def gen_cases(rng, tier):
-    scale = 1 if tier == "quick" else 12
-    cases = boundary_cases()
-    cases += gen_writer_cases(rng, 5000 * scale)
+def gen_cases(rng, scale):
+    cases = gen_writer_cases(rng, 5000 * scale)
     cases += gen_reader_cases(rng, 12000 * scale)
     cases += gen_malformed_cases(rng, 4000 * scale)
     return cases
@@ -366,11 +364,8 @@ def shrink(vlib, impl, model, line, budget=12):
 def run(ctx, vlib):
     impl, model = C.drivers(vlib)
     rng = ctx["rng"]
-    corpus = [(l, "corpus") for l in C.load_corpus("C09")]
-    labelled = corpus + gen_cases(rng, ctx["tier"])
-    cases = [l for l, _ in labelled]
-    oi = vlib.run_driver(impl, cases)
-    om = vlib.run_driver(model, cases)
+    # quick: one round of 21k generated cases; thorough: 8 rounds of 252k (memory stays bounded, one PRNG throughout)
+    rounds = [1] if ctx["tier"] == "quick" else [12] * 8
 
     kn = [k for k in vlib.load_known("C09") if k.get("status") == "known"]
     known_cases = set(k["case"] for k in kn)
@@ -380,31 +375,50 @@ def run(ctx, vlib):
     classes = {}
     seen = set()
     nt = 0
-    for (line, label), a, b in zip(labelled, oi, om):
-        classes[label] = classes.get(label, 0) + 1
-        if line not in seen:
-            seen.add(line)
-            if nontrivial(line):
-                nt += 1
-        if b == "UNSUPPORTED":
-            classes["model:unsupported"] = classes.get("model:unsupported", 0) + 1
-            continue
-        verdict, why, defect = judge(line, a)
-        key = "judge:" + verdict + ((":" + (defect or "unclassified")) if verdict == "FAIL" else "")
-        classes[key] = classes.get(key, 0) + 1
-        if a != b:
-            rec = dict(driver="csv", case=line, implementation=a[:400], model=b[:400], judge=verdict, why=why,
-                       defect_class=defect)
-            if verdict == "FAIL" and line not in known_cases:
-                if len(failing) < 200:
-                    failing.append(rec)
-            elif len(diffs) < 20:
-                diffs.append(rec)
-        elif verdict == "FAIL" and defect is None and len(diffs) < 20:
-            # model and code agree, the property fails, and the case is in no class the theorems name (F18, F22):
-            # the Python reading of the property and the Coq theorems disagree
-            diffs.append(dict(driver="csv", case=line, implementation=a[:400], model=b[:400], judge=verdict,
-                              why="property fails on model and implementation alike outside every recorded defect class: " + why))
+    total = 0
+    samples = []
+    for rno, scale in enumerate(rounds):
+        labelled = gen_cases(rng, scale)
+        if rno == 0:
+            labelled = [(l, "corpus") for l in C.load_corpus("C09")] + boundary_cases() + labelled
+        cases = [l for l, _ in labelled]
+        total += len(cases)
+        oi = vlib.run_driver(impl, cases)
+        om = vlib.run_driver(model, cases)
+        for (line, label), a, b in zip(labelled, oi, om):
+            classes[label] = classes.get(label, 0) + 1
+            h = hash(line)
+            if h not in seen:
+                seen.add(h)
+                if nontrivial(line):
+                    nt += 1
+            if b == "UNSUPPORTED":
+                classes["model:unsupported"] = classes.get("model:unsupported", 0) + 1
+                continue
+            verdict, why, defect = judge(line, a)
+            key = "judge:" + verdict + ((":" + (defect or "unclassified")) if verdict == "FAIL" else "")
+            classes[key] = classes.get(key, 0) + 1
+            if a != b:
+                rec = dict(driver="csv", case=line, implementation=a[:400], model=b[:400], judge=verdict, why=why,
+                           defect_class=defect)
+                if verdict == "FAIL" and line not in known_cases:
+                    if len(failing) < 200:
+                        failing.append(rec)
+                elif len(diffs) < 20:
+                    diffs.append(rec)
+            elif verdict == "FAIL" and defect is None and len(diffs) < 20:
+                # model and code agree, the property fails, and the case is in no class the theorems name (F18, F22):
+                # the Python reading of the property and the Coq theorems disagree
+                diffs.append(dict(driver="csv", case=line, implementation=a[:400], model=b[:400], judge=verdict,
+                                  why="property fails on model and implementation alike outside every recorded defect class: " + why))
+        if rno == 0:
+            for want in ("r:stream", "w:uniform", "m:"):
+                for (line, label), a, b in zip(labelled, oi, om):
+                    if label.startswith(want) and len(line) < 300:
+                        samples.append(dict(case=line, implementation=a, model=b, cls=label))
+                        break
+        if len(failing) >= 200:
+            break
     # report the failures outside every recorded defect class first, shortest first; minimise the first few
     failing.sort(key=lambda r: (r["defect_class"] is not None, len(r["case"])))
     failing = failing[:20]
@@ -426,18 +440,12 @@ def run(ctx, vlib):
         for k, o in zip(kn, outs):
             if o == k["implementation"]:
                 known_lines.append("%s: %s [case: %s -> %s]" % (k["id"], k["what"], k["case"], o))
-    samples = []
-    for want in ("r:stream", "w:uniform", "m:"):
-        for (line, label), a, b in zip(labelled, oi, om):
-            if label.startswith(want) and len(line) < 300:
-                samples.append(dict(case=line, implementation=a, model=b, cls=label))
-                break
     notes = []
     unlisted = sorted(set(k.split(":")[2] for k in classes if k.startswith("judge:FAIL:") and not k.endswith("unclassified")) - known_ids)
     if unlisted:
         notes.append("defect classes met by generated cases (model = implementation, property fails, class named by a _refuted theorem) "
                      "that have no 'known' entry in known_findings.jsonl yet: " + ", ".join(unlisted))
-    return dict(evaluations=len(cases), distinct_nontrivial=nt, samples=samples, classes=classes, failing=failing, diffs=diffs,
+    return dict(evaluations=total, distinct_nontrivial=nt, samples=samples, classes=classes, failing=failing, diffs=diffs,
                 known_lines=known_lines, rule=RULE, exhaustive=False, notes=notes,
                 broken="correspondence csv model vs src/csv (drv_csv)")
 
